@@ -171,11 +171,22 @@ func Harness_C16_stress() {
 	v.cw.Start(1000)
 	client := zz.NondetUint("clientRate")
 	zz.Assume(client < 1<<31)
-	ev := v.event(map[string]any{"trace.trace_id": "T1", "f": int64(7)}, client)
+	fields := map[string]any{"trace.trace_id": "T1", "f": int64(7)}
+	receivedProbe := zz.NondetBool("receivedProbe")
+	if receivedProbe {
+		// a probe another (stressed) node sent to the trace's owner
+		fields["meta.refinery.probe"] = true
+	}
+	ev := v.event(fields, client)
 	zz.Assert(v.r.processEvent(ev, "req") == nil, "span accepted")
 	up := v.up.count(ev)
 	inq, peerq := v.cw.VerifQueueLens()
 	zz.Assert(inq+peerq == 0, "[C16] a trace first seen under stress is not buffered")
+	if receivedProbe {
+		zz.Assert(up == 0 && len(v.up.q) == 0, "[C16] a received probe is never forwarded to Honeycomb, stressed or not")
+		zz.Assert(len(v.peer.q) == 0, "[C16] a received probe is not passed on")
+		return
+	}
 	eff := zz.IteUint(client < 1, 1, client)
 	if v.sr.keep {
 		zz.Assert(up == 1, "[C16] kept span forwarded to Honeycomb exactly once")
